@@ -62,6 +62,7 @@ struct Hist {
     bool opCopyOut();
     bool opReadModifyWrite();
     bool opSelfFrame();
+    bool opReRate();
     bool opSelfParam();
     void rebuildAndCompare();
     bool opRenameCopy();
